@@ -52,6 +52,14 @@ enum {
   MYTH_VP_YIELD_CB = 99
 };
 
+/* point ids of the bulk fork-join helpers (myth_create_join_various_ex_aux) */
+enum {
+  MYTH_VP_BULK_LEAF   = 170,  /* before the call of item a; a = function slot, b = argument slot, v = a */
+  MYTH_VP_BULK_SPLIT  = 171,  /* range [a,b) is split at c; a = (void*)a, b = (void*)b, v = c */
+  MYTH_VP_BULK_ATTR   = 172,  /* attribute used for the thread of [a,c); a = attribute slot or 0, b = attrs base, v = a */
+  MYTH_VP_BULK_JOINED = 173   /* the thread of [a,c) has been joined and [c,b) is done; a = (void*)a, b = (void*)b, v = c */
+};
+
 #ifdef MYTH_VERIF
 
 #ifdef __cplusplus
